@@ -20,6 +20,10 @@ const (
 	dbEnvVarPrefix     = "dm_pg_db_"
 )
 
+// paramNameChars lists every character used in a parameter name of the serialized format
+// (c b a S V sp sr sl sb dp dr dm dl dif p m l r)
+const paramNameChars = "abcdfilmprsSV"
+
 func containsSep(val string) bool {
 	return strings.Contains(val, itemSep) || strings.Contains(val, kvSep)
 }
@@ -290,7 +294,9 @@ func setSeparators(paramsStruct interface{}) error {
 	if err != nil {
 		return err
 	}
-	invalidSeps, err := mergeAndUniqifyRunes(stringVals...)
+	// the characters of the parameter names (and of the flag "S") may not be separators either:
+	// the decoder could not tell a name from a separator
+	invalidSeps, err := mergeAndUniqifyRunes(append(stringVals, paramNameChars)...)
 	if err != nil {
 		return err
 	}
